@@ -81,6 +81,32 @@ def lin_name(c, atoms):
     return base if c == 0 else f"({c}+{base})"
 
 
+def _inputs_by_type(f, b):
+    """access paths of the cleanup strategy and of the direct-naming flag among the parameters of the cleanup function, by TYPE: plain parameters
+    (`cleanup_config: &Cleanup, .., writes_direct: bool`) or fields of a private parameter struct (`job: &CleanupJob`)"""
+    cc = wd = None
+    for i in range(1, b.arg_count + 1):
+        n, ty = b.locals[i].get('name'), b.locals[i]['ty']
+        t = re.sub(r"^&('\w+ )?(mut )?", '', ty)
+        if t.endswith('parameters::cleanup::Cleanup'):
+            cc = n
+        elif t == 'bool':
+            wd = n
+        else:
+            head = t.split('<')[0]
+            adt = f.adts.get(head)
+            if adt and len(adt['variants']) == 1:
+                for fd in adt['variants'][0]['fields']:
+                    ft = re.sub(r"^&('\w+ )?(mut )?", '', fd['ty'])
+                    if ft.endswith('parameters::cleanup::Cleanup'):
+                        cc = ('*' if fd['ty'].startswith('&') else '') + f"{n}.{fd['name']}"
+                    elif ft == 'bool':
+                        wd = f"{n}.{fd['name']}"
+    if cc is None or wd is None:
+        raise CheckError(f"R07.1: inputs of the cleanup function not found by type (strategy: {cc}, direct flag: {wd})")
+    return cc, wd
+
+
 def classification(R, ctx):
     f = ctx.f
     b = f.bodies.get(IMPL)
@@ -94,6 +120,7 @@ def classification(R, ctx):
     problems = {}
     counts = {}
     seen_classes = set()
+    CC, WD = _inputs_by_type(f, b)
 
     def prob(variant, text):
         problems.setdefault(variant, [])
@@ -101,7 +128,7 @@ def classification(R, ctx):
             problems[variant].append(text)
 
     for r in rows:
-        variant = r.get('variant(cleanup_config)')
+        variant = r.get(f'variant({CC})')
         if r.undecided:
             R.bad('R07.1', f"cleanup|{variant}", f"UNDECIDED: {r.undecided}", where=b.loc())
             continue
@@ -111,14 +138,14 @@ def classification(R, ctx):
             if effs or not (isinstance(r.result, Agg) and r.result.variant == 'Ok'):
                 prob(variant, f"Cleanup::Never performs {[e[0] for e in effs]}")
             continue
-        direct = r.get('writes_direct')
+        direct = r.get(WD)
         # (k, m) as names
         if variant == 'KeepLogFiles':
-            k_atom, m_atom = 'cleanup_config.0', None
+            k_atom, m_atom = f'{CC}.0', None
         elif variant == 'KeepCompressedFiles':
-            k_atom, m_atom = None, 'cleanup_config.0'
+            k_atom, m_atom = None, f'{CC}.0'
         else:
-            k_atom, m_atom = 'cleanup_config.0', 'cleanup_config.1'
+            k_atom, m_atom = f'{CC}.0', f'{CC}.1'
         kzero = None
         if direct:
             if k_atom:
@@ -142,9 +169,10 @@ def classification(R, ctx):
         sumname = lin_name(kc, ka + ([m_atom] if m_atom else []))
         sat = [f"core::num::<impl usize>::saturating_add({kname},{m_atom or 0})"]
         # split the trace into elements
-        known_atoms = {'variant(cleanup_config)', 'writes_direct'}
+        known_atoms = {f'variant({CC})', WD}
         if k_atom:
             known_atoms.add(f"ord(0,{k_atom})")
+            known_atoms.add(f"ord({k_atom},0)")        # operands of an ordering atom are named in lexicographic order (`*x` sorts before `0`)
         elems = [i for i, e in enumerate(effs) if re.search(NEXT, e[0])]
         row_ok = True
         for n_i, ei in enumerate(elems):
@@ -277,7 +305,7 @@ def classification(R, ctx):
                 continue
             prob(variant, f"the classification depends on a condition outside the documented one: {a[:140]} = {v}")
             break
-        notes = [n for n in r.notes if n.startswith('overflow-check') and 'cleanup_config' in n and '+' in n and n.count('cleanup_config') >= 2]
+        notes = [n for n in r.notes if n.startswith('overflow-check') and CC in n and '+' in n and n.count(CC) >= 2]
         if notes:
             problems.setdefault(variant + '|overflow', []).append(f"k + m is computed with overflow check only ({notes[0]}): KeepLogAndCompressedFiles(usize::MAX, 1) panics under the state lock / wraps to 0 and deletes everything")
     variants = ['Never', 'KeepLogFiles'] + (['KeepCompressedFiles', 'KeepLogAndCompressedFiles'] if compress else [])
@@ -416,14 +444,49 @@ def twins(R, ctx):
     cleanup_flag_provenance(R, ctx)
 
 
+def _arg_roots(ctx, b, p, t, ty_rx):
+    """provenance roots of the value of the given type handed to the callee: a plain argument, or the field of that type of a private parameter
+    struct built in the caller (`CleanupJob { .., infix_filter, writes_direct }`)"""
+    f = ctx.f
+    callee = callee_name(t)
+    cb = f.bodies.get(callee)
+    strip = lambda ty: re.sub(r"^&('\w+ )?(mut )?", '', ty)
+    direct = [i - 1 for i in range(1, (cb.arg_count if cb else 0) + 1) if re.search(ty_rx, strip(cb.locals[i]['ty']))]
+    if len(direct) == 1:
+        return p.op_roots(t['args'][direct[0]])
+    for i in range(1, (cb.arg_count if cb else 0) + 1):
+        head = strip(cb.locals[i]['ty']).split('<')[0]
+        adt = f.adts.get(head)
+        if not adt or len(adt['variants']) != 1:
+            continue
+        fi = [k for k, fd in enumerate(adt['variants'][0]['fields']) if re.search(ty_rx, strip(fd['ty']))]
+        if len(fi) != 1:
+            continue
+        aggs = [s_ for x in with_closures(f, f.bodies[root_fn(b.path)]) if x.path == b.path for blk in x.blocks for s_ in blk['stmts']
+                if s_['k'] == 'assign' and s_['rv']['k'] == 'agg' and (s_['rv'].get('adt') or '').split('<')[0] == head]
+        if len(aggs) == 1:
+            return p.op_roots(aggs[0]['rv']['ops'][fi[0]])
+    raise CheckError(f"R07.4/R07.5: how the value of type /{ty_rx}/ reaches {callee.split('::')[-1]} from {b.path.split('::')[-1]} is not recognised")
+
+
+def _param_index(f, callee, ty_rx):
+    """position of the callee's only parameter of the given type; a changed parameter list (e.g. a parameter struct) is `form not recognised`"""
+    cb = f.bodies.get(callee)
+    c = [i - 1 for i in range(1, (cb.arg_count if cb else 0) + 1) if re.search(ty_rx, re.sub(r"^&('\w+ )?(mut )?", '', cb.locals[i]['ty']))]
+    if len(c) != 1:
+        raise CheckError(f"R07.4/R07.5: {callee.split('::')[-1]} has {len(c)} parameters of type /{ty_rx}/ - how the direct flag / infix filter reach the cleanup is not recognised")
+    return c[0]
+
+
 def cleanup_flag_provenance(R, ctx):
+    f = ctx.f
     # which predicate is used where: start-up uses Naming's, rotation NamingState's; both are handed to cleanup as the flag
     for fn, which in (('State::initialize_with_rotation', 'Naming::writes_direct'), ('State::mount_next_linewriter_if_necessary', 'NamingState::writes_direct')):
         b = ctx.body(rf'::{fn}$')
         p = ctx.ip.prov(b.path)
         sites = [(bb, t) for bb, t in b.calls() if re.search(r'remove_or_compress_too_old_logfiles(_impl)?$|start_cleanup_thread$', callee_name(t))]
         for bb, t in sites:
-            roots = p.op_roots(t['args'][-1])
+            roots = _arg_roots(ctx, b, p, t, r'^bool$')
             ok = any(r_[0] == 'call' and r_[1].endswith('writes_direct') for r_ in roots) and not any(r_[0] == 'const' for r_ in roots)
             R.check('R07.4', f"{b.path}|flag->{callee_name(t).split('::')[-1]}", ok, "direct flag <= writes_direct()",
                     f"the direct-naming flag handed to {callee_name(t).split('::')[-1]} does not come from writes_direct() ({sorted(map(str, roots))[:3]})", where=b.loc(bb))
@@ -485,7 +548,7 @@ def cleanup_filter_provenance(R, ctx):
         p = ctx.ip.prov(b.path)
         for bb, t in b.calls():
             if re.search(r'remove_or_compress_too_old_logfiles(_impl)?$|start_cleanup_thread$', callee_name(t)):
-                roots = p.op_roots(t['args'][-2])
+                roots = _arg_roots(ctx, b, p, t, r'InfixFilter$')
                 ok = any(r_[0] == 'call' and r_[1].endswith('NamingState::infix_filter') for r_ in roots) and \
                     not any(r_[0] == 'agg' and 'InfixFilter' in r_[1] for r_ in roots)
                 R.check('R07.5', f"{b.path}|filter->{callee_name(t).split('::')[-1]}", ok, "cleanup filter <= naming_state.infix_filter()",
